@@ -196,6 +196,11 @@ def monitor(ctx, programs, events, secs, stuck, count, trace):
     holders = []  # (t, w)
     calls = {}
     rp = {"family": "updown", "programs": programs, "schedule": [c for c, _ in trace]}
+    # no lost wake-up: the release that frees the lock wakes every sleeper (a free lock is available to each of them)
+    for e in events:
+        if e[0] == "notify" and len(e) >= 5 and e[3] < e[4]:
+            ctx.fail("C13:sleeper-not-woken", f"the release by thread {e[1]} that freed the lock woke {e[3]} of {e[4]} sleeping threads: the others sleep on a lock that is available to them", rp)
+            break
     for lab, o in secs:
         if lab[0] in ("acq", "retry"):
             t = lab[-1]
@@ -308,6 +313,8 @@ def explore(ctx):
         complete += done
         if k < 2:
             ctx.sample({"programs": [pa, pb], "schedules_enumerated": n, "exhaustive": done})
+    n, done = all_schedules(ctx, ((("acq", "up", True, None), ("sleep", 1)), (("acq", "down", True, None), ("sleep", 5)), (("acq", "down", True, 3),)), terms, 300)
+    used += n
     # three threads, sampled programs, all schedules up to a cap
     for _ in range(15 if ctx.quick() else 400):
         progs = tuple(tuple(rng.choice(base_ops) for _ in range(rng.randint(1, 2))) for _ in range(3))
